@@ -16,7 +16,7 @@
 From Verif.Base Require Import Bytes.
 From Verif.Gen Require Import GenRegex.
 From Verif.Semver Require Import Model Spec.
-From Verif.Module Require Import Pseudo PseudoProofsDec PseudoProofsRe PseudoProofs PseudoProofsMain PseudoProofsOrder.
+From Verif.Module Require Import Pseudo PseudoProofsDec PseudoProofsRe PseudoProofs PseudoProofsMain PseudoProofsOrder PseudoProofsCount.
 
 (* the regular expression the recogniser pseudo_re_match was written for is the one in
    module/pseudo.go now (regenerated into Gen/GenRegex.v on every run) *)
@@ -115,6 +115,13 @@ Theorem C18_pseudo_time_monotone :
     compare pv1 pv2 = -1.
 Proof. exact pseudo_time_monotone. Qed.
 Print Assumptions C18_pseudo_time_monotone.
+
+(* the test strings.Count(v, "-") >= 2 of IsPseudoVersion is implied by the regular
+   expression (a fast path only; changing it to ">= 1" is unobservable) *)
+Theorem C18_count_test_redundant :
+  forall v, pseudo_re_match v = true -> (2 <= count_byte 45 v)%nat.
+Proof. exact pseudo_re_two_dashes. Qed.
+Print Assumptions C18_count_test_redundant.
 
 (* the hypotheses are satisfiable, and the functions compute what the documentation shows *)
 Example C18_examples :
